@@ -833,17 +833,18 @@ func (p *proxyObject) proxyOwnKeys() ([]Value, bool) {
 		}
 		ext := target.self.isExtensible()
 		for item, next := target.self.iterateKeys()(); next != nil; item, next = next() {
+			// the property descriptor of every target key is obtained, as a target that is itself a proxy can observe it
+			var prop Value
+			if item.value == nil {
+				prop = target.getOwnProp(item.name)
+			} else {
+				prop = item.value
+			}
 			if keySet.has(item.name) {
 				keySet.delete(item.name)
 			} else {
 				if !ext {
 					panic(p.val.runtime.NewTypeError("'ownKeys' on proxy: trap result did not include '%s'", item.name.String()))
-				}
-				var prop Value
-				if item.value == nil {
-					prop = target.getOwnProp(item.name)
-				} else {
-					prop = item.value
 				}
 				if prop, ok := prop.(*valueProperty); ok && !prop.configurable {
 					panic(p.val.runtime.NewTypeError("'ownKeys' on proxy: trap result did not include non-configurable '%s'", item.name.String()))
